@@ -139,6 +139,14 @@ Theorem C01_structure_scanner_excludes_sound_modulo_known :
 Proof. exact struct_sound_modulo_known. Qed.
 Print Assumptions C01_structure_scanner_excludes_sound_modulo_known.
 
+(* the project root itself is never excluded by a pattern that names at least one component, under either reading
+   (D121, fix b1a9be7: the absolute spelling used to expose the name of the project directory to the patterns) *)
+Theorem C01_root_never_excluded : forall ps, forallb names_something ps = true ->
+  struct_excluded mpat mentry e_dir m_on_path m_on_name m_name_fallback ps root_entry = false /\
+  plain_excluded mpat mentry m_on_path ps root_entry = false.
+Proof. exact root_never_excluded. Qed.
+Print Assumptions C01_root_never_excluded.
+
 (* verdict trichotomy used by spec_status *)
 Theorem C01_verdict_failed_iff : forall c lim w, verdict c lim w = Failed <-> lim < c.
 Proof. exact verdict_failed_iff. Qed.
